@@ -120,8 +120,12 @@ class GridDistortion:
         data['yr'] = np.reshape(self.optic.surface_group.y[-1, :],
                                 (self.num_points, self.num_points))
 
-        # optical system flips x, so must correct this
-        data['xp'] = np.flip(xp)
+        # for angular fields a positive Hx launches rays towards -x, so the
+        # predicted x must be mirrored; object heights are not mirrored
+        if self.optic.field_type == 'object_height':
+            data['xp'] = xp
+        else:
+            data['xp'] = np.flip(xp)
         data['yp'] = yp
 
         # Find max distortion
